@@ -27,6 +27,7 @@ func checkC14(c *Check) {
 	c14Keys(c)
 	c14Hashes(c)
 	c14Verify(c)
+	c14Providers(c)
 	c14Mapping(c)
 	c14Gate(c)
 	_ = p
@@ -304,6 +305,22 @@ func c14Verify(c *Check) {
 	}
 	// a nil verifier (unknown tag) is refused before the call
 	c.Hold("R3", "Auth.AuthPlain", r.FI.Decl.Pos(), msg == "", msg)
+}
+
+// R3b: the provider loop
+func c14Providers(c *Check) {
+	c.Rule("R3b", "SASLAuth.AuthPlain reports success only as the nil result of a configured credential provider's AuthPlain (never by default, e.g. when every provider answered 'unknown user')", 3)
+	r := c.need("R3b", "internal/auth", "SASLAuth", "AuthPlain")
+	if r == nil {
+		return
+	}
+	msgs, n := r.SuccessOnlyFrom(calling("~/framework/module.PlainAuth.AuthPlain"))
+	if n == 0 {
+		c.Fail("R3b", "SASLAuth.AuthPlain:providers", r.FI.Decl.Pos(), "undecided: no call of a provider's AuthPlain found")
+	}
+	for i, m := range msgs {
+		c.Hold("R3b", "SASLAuth.AuthPlain:return"+itoa(i+1), r.FI.Decl.Pos(), m == "", m)
+	}
 }
 
 // R4, R5, R6
